@@ -290,6 +290,13 @@ def monitor_script(prop_mod, script_text, builds, wd, res, shard_desc, timeout=6
             if r.status == "bad":
                 res.inconclusive.append("harness error on op %d (%s): %s" % (r.id, r.line[:120], r.cat))
                 continue
+            if r.status == "ok" and any(o[0] == "NC" for o in r.outs):
+                res.evals += 1
+                res.violations.append(dict(kind="noncanonical", build=bname, id=r.id, line=r.line[:2000],
+                                           expected="field elements equal (library ==) to the canonical element of the same integer value",
+                                           observed="a returned element differs from from_repr(into_repr(x)): " + str(r.outs)[:600],
+                                           shard=shard_desc, script=closure(script_text, r.id)))
+                continue
             if r.args is None:
                 continue  # depends on an op that did not produce a value (already judged there)
             try:
